@@ -229,6 +229,58 @@ def run(tier, logdir):
             return "(= %s %s)" % (a, want[0])
         check_sites("F4 Drawable::draw hands the stored force flag to MultiState::draw", fn, r"MultiState::draw$", 1, f4_claim)
         enc.append("Drawable::draw")
+        # ---- D: dropping a bar
+        src_st = open(os.path.join(common.REPO, "src", "state.rs")).read()
+        k_inprog = variant_index(src_st, "Status", "InProgress")
+        fn = mir.find("drop", self_ty="&mut BarState")
+        ex = S.Exec(fn)
+        fin_paths = ex.run(want_call=r"BarState::finish_using_style$")
+        ret_paths = S.Exec(fn).run(want_return=True)
+        d1_bad = None
+        for p in fin_paths:
+            if not S.feasible(ex, p.conds):
+                continue
+            fin = [e[3] for e in p.events if e[0] == "call" and e[1].endswith("ProgressState::is_finished")]
+            disc = [d for d in ex.decls if d.startswith("disc_") and "Status" in d]
+            claims = []
+            if fin:
+                claims.append("(= %s 0)" % fin[0])
+            if disc:
+                claims.append("(= %s %d)" % (disc[0], k_inprog))
+            claim = "(or %s)" % " ".join(claims) if claims else "false"
+            ok, r = S.valid(ex, p.conds, claim)
+            nq[0] += 1
+            if not ok:
+                d1_bad = p
+                break
+        label = "D1 dropping a bar finishes it only when it is still in progress (a finished or cleared bar is not finished again)"
+        if not fin_paths:
+            queries.append({"name": label, "verdict": "VACUOUS", "why": "BarState::drop does not call finish_using_style: the code structure changed", "wall_s": 0})
+        elif d1_bad is None:
+            queries.append({"name": label + " (%d paths)" % len(fin_paths), "verdict": "PASS", "bounds": "every path of <BarState as Drop>::drop", "wall_s": 0, "solver": {"z3+cvc5": "QF_LIA"}})
+        else:
+            # candidate: confirm natively that a finished-and-cleared bar comes back when dropped
+            differs, detail = native_drop_demo(root)
+            if differs is True:
+                queries.append({"name": "D1 dropping a finished bar finishes (and paints) it again", "verdict": "FAIL", "why": "finish_using_style reachable under %s; native run: %s" % (" ".join(d1_bad.conds)[:160], detail),
+                                "replayed": True, "replay_path": art("D1_drop_finishes_again", {"rule": "D1", "function": fn.name, "path_condition": d1_bad.conds, "native": detail}), "wall_s": 0})
+            else:
+                queries.append({"name": label, "verdict": "INCONCLUSIVE", "why": "finish_using_style reachable under %s; the native run %s" % (" ".join(d1_bad.conds)[:160], "showed nothing painted by the drop" if differs is False else "could not be run: " + str(detail)[:200]), "wall_s": 0})
+        # D2: every path marks the bar as a zombie exactly once, as its last library call
+        d2_bad = None
+        for p in ret_paths:
+            calls = [e[1] for e in p.events if e[0] == "call"]
+            if calls.count("ProgressDrawTarget::mark_zombie") != 1 or not calls or calls[-1] != "ProgressDrawTarget::mark_zombie":
+                d2_bad = (p, calls)
+        if not ret_paths:
+            queries.append({"name": "D2 drop notifies the MultiProgress", "verdict": "VACUOUS", "why": "no return path", "wall_s": 0})
+        elif d2_bad is None:
+            queries.append({"name": "D2 every path of drop ends with exactly one mark_zombie (the MultiProgress learns that the bar is gone, after the final draw) (%d paths)" % len(ret_paths), "verdict": "PASS",
+                            "bounds": "every path of <BarState as Drop>::drop", "wall_s": 0})
+        else:
+            queries.append({"name": "D2 a path of drop does not end with exactly one mark_zombie", "verdict": "FAIL", "why": "calls on the path: %s" % d2_bad[1], "replayed": True,
+                            "replay_path": art("D2_mark_zombie", {"rule": "D2", "function": fn.name, "calls": d2_bad[1]}), "wall_s": 0})
+        enc.append("<BarState as Drop>::drop")
         for q in queries:
             q.setdefault("wall_s", 0)
         if queries:
@@ -239,8 +291,63 @@ def run(tier, logdir):
     return {"queries": queries, "assumptions": assumptions, "encodes": enc, "bounds": ["engine M (force flag): every acyclic path to each call site"]}
 
 
+DROP_TEST = r'''
+#[cfg(test)]
+mod verif_c04_drop {
+    use crate::{InMemoryTerm, ProgressBar, ProgressDrawTarget, ProgressFinish, ProgressStyle};
+
+    #[test]
+    fn verif_c04_drop_of_finished_bar_paints_nothing() {
+        let mut painted = Vec::new();
+        for how in 0..4 {
+            let term = InMemoryTerm::new(6, 40);
+            let pb = ProgressBar::with_draw_target(Some(10), ProgressDrawTarget::term_like(Box::new(term.clone())))
+                .with_style(ProgressStyle::with_template("{msg} {pos}/{len}").unwrap())
+                .with_finish(ProgressFinish::WithMessage("done".into()))
+                .with_message("work");
+            pb.inc(3);
+            match how {
+                0 => pb.finish_and_clear(),
+                1 => pb.finish(),
+                2 => pb.abandon(),
+                _ => pb.finish_with_message("bye"),
+            }
+            let before = term.contents();
+            drop(pb);
+            let after = term.contents();
+            if before != after {
+                painted.push(format!("how={how}: before {before:?} after {after:?}"));
+            }
+        }
+        if painted.is_empty() {
+            println!("DROPDEMO same");
+        } else {
+            println!("DROPDEMO differs {}", painted.join(" | "));
+        }
+    }
+}
+'''
+
+
+def native_drop_demo(root):
+    from props.C05 import native_test
+    try:
+        rc, out = native_test(root, "lib.rs", DROP_TEST, "verif_c04_drop_of_finished_bar_paints_nothing", timeout=900, features="in_memory")
+    except Exception as e:  # noqa
+        return None, repr(e)
+    m = re.search(r"DROPDEMO (differs|same)(.*)", out)
+    if not m:
+        pm = re.search(r"(error[^\n]*\n[^\n]*|panicked at [^\n]*\n[^\n]*)", out)
+        return None, (pm.group(0) if pm else out[-300:])
+    return (m.group(1) == "differs"), m.group(0)[:400]
+
+
 def replay(path):
     d = json.load(open(path))
+    if "native" in d:
+        differs, detail = native_drop_demo(common.scratch_root())
+        say(detail)
+        return 2 if differs is None else (1 if differs else 0)
     r = run("quick", None)
     hit = [q for q in r["queries"] if q["verdict"] == "FAIL" and d.get("rule", "@@")[:2] in q["name"]]
     if hit:
